@@ -50,7 +50,7 @@ def run(job):
         for pid in (sorted(expect) if expect else ALL):
             out = subprocess.run([os.path.join(V, 'check'), pid, '--no-evidence', '--no-selftest', '--repo', S], capture_output=True, text=True,
                                  env=dict(os.environ, ACB_FACTS_SLOT=S.rsplit('_', 1)[-1])).stdout
-            keys = [l.strip() for l in out.splitlines() if 'violation:' in l]
+            keys = [l.strip() for l in out.splitlines() if 'violation:' in l or 'checker could not complete' in l]
             if 'tier=' not in out:
                 bad.append('%s: check did not complete' % pid)
             elif expect:
